@@ -53,6 +53,7 @@ import random
 from bounded.common import *  # noqa: F401,F403
 from bounded.common import build_tree, shapes_upto, length_patterns, pmap, rng_for, n_leaves, LABELS, with_unifurcations, time_limit, Timeout
 from specs import trees as S
+from bounded.guard import cpu_limit, CpuTimeout
 from specs import reroot as RR
 from specs import bipart as BP
 
@@ -211,7 +212,7 @@ def eval_op(spec, o, before=None):
     if _HANGS.get(op, 0) >= HANG_LIMIT:
         return [(prefix + ".terminates", "not run: this operation already hung %d times in this worker" % HANG_LIMIT)]
     try:
-        with time_limit(HANG_SECONDS):
+        with cpu_limit(HANG_SECONDS):
             if op == "reseed_at":
                 t.reseed_at(target, update_bipartitions=o["upd"], suppress_unifurcations=o["sup"], collapse_unrooted_basal_bifurcation=o["col"])
             elif op == "reroot_at_node":
@@ -242,9 +243,9 @@ def eval_op(spec, o, before=None):
                 t.reorder(ascending=o["asc"])
             else:
                 raise ValueError(op)
-    except Timeout:
+    except CpuTimeout:
         _HANGS[op] = _HANGS.get(op, 0) + 1
-        return [(prefix + ".terminates", "no result after %s s" % HANG_SECONDS)]
+        return [(prefix + ".terminates", "no result after %s s of CPU time" % HANG_SECONDS)]
     except Exception as ex:
         return [(raises_prefix + ".raises", "%s: %s" % (type(ex).__name__, ex))]
 
